@@ -138,10 +138,13 @@ type packageSection struct {
 	OtherFiles  []fileDigest     `yaml:"other_files,omitempty"`
 	EmbedFiles  []embedDigest    `yaml:"embed_files,omitempty"`
 	RewriteVars orderedStringMap `yaml:"rewrite_vars,omitempty"`
+	// ExpandedSpecs holds what the environment references in LLGoFiles /
+	// LLGoPackage expand to.
+	ExpandedSpecs []string `yaml:"expanded_specs,omitempty"`
 }
 
 func (s *packageSection) empty() bool {
-	return s.PkgPath == "" && s.PkgID == "" && len(s.GoFiles) == 0 && len(s.AltGoFiles) == 0 && len(s.OtherFiles) == 0 && len(s.EmbedFiles) == 0 && len(s.RewriteVars) == 0
+	return s.PkgPath == "" && s.PkgID == "" && len(s.GoFiles) == 0 && len(s.AltGoFiles) == 0 && len(s.OtherFiles) == 0 && len(s.EmbedFiles) == 0 && len(s.RewriteVars) == 0 && len(s.ExpandedSpecs) == 0
 }
 
 // embedDigest identifies the content a //go:embed variable was given.
